@@ -220,6 +220,9 @@ def chk_histories(T, v, M, rng):
     """C04: equal abstract content => identical DER and CER, whatever the construction history"""
     be, bd, ce, cd, de, dd, error, bridge = M
     out, n = [], 0
+    from standins.codec_checks import untagged_any_in_ber_form
+    if untagged_any_in_ber_form(T, v):
+        return [], 0            # no DER / CER encoding: the contents of the untagged ANY are not canonical themselves
     try:
         base = bridge.to_value(T, v)
         d0, c0 = canon(M, base)
